@@ -9,7 +9,8 @@ from .existmodel import AllModel
 # (unicode: decomposed e + U+0301, a non-BMP first character; an upper-case twin; a name ending like a sidecar; an interior line break)
 TREE_NAMES = ["a", "a-b", "a.b", "a+b", "ab", "b", "oph", "ophelia", "x_rig", "B", "rig",
               "cafe\u0301", "\U0001F600hero", "Ophelia", "x.data.json", "a\nb",
-              "Thumbs.db", "lost+found", "@eaDir", "desktop.ini", "constable", "nul"]     # (names with a meaning on other systems are names)
+              "Thumbs.db", "lost+found", "@eaDir", "desktop.ini", "constable", "nul",
+              "sword2", "sword10", "sofa", "tiara", "caf\udce9"]     # (names with a meaning on other systems are names)
 
 
 class Lab:
